@@ -132,6 +132,16 @@ func h20() {
 			continue
 		}
 		tsv := &compile.ServiceSpec{Name: snames[si], File: file, Functions: map[string]*compile.FunctionSpec{}}
+		if verifParam("parent") == 1 && verifChoice(2) == 1 {
+			// the new version extends a service that declares the same method
+			// names; a method removed from this service is still removed
+			par := &compile.ServiceSpec{Name: "Base", File: file, Functions: map[string]*compile.FunctionSpec{}}
+			for n := range fsv.Functions {
+				par.Functions[n] = &compile.FunctionSpec{Name: n}
+			}
+			tsv.Parent = par
+			to.Services["Base"] = par
+		}
 		for n := range fsv.Functions {
 			if verifChoice(2) == 0 {
 				wantRmMethod++
